@@ -90,7 +90,7 @@ static void deliveries(const uint8_t *in, const unsigned n, const unsigned lineE
 // ---- well-formed heads of every size S with |S - L| <= 2
 // slack: bytes by which the parser's own estimate of the first line may exceed the real line (ICY: 2)
 template <class ParserT>
-static void sized(const uint8_t *in, const unsigned S, const unsigned lineEnd, const unsigned L, const bool http09, const bool request, const unsigned slack)
+static void sized(const uint8_t *in, const unsigned S, const unsigned lineEnd, const unsigned L, const bool http09, const bool request, const unsigned slack, const bool wellFormed = true)
 {
     const Outcome whole = drive<ParserT>(in, S, S, L);
     vf_observe("ok", whole.ok); vf_observe("more", whole.more); vf_observe("status", whole.status); vf_observe("consumed", whole.consumed);
@@ -106,6 +106,9 @@ static void sized(const uint8_t *in, const unsigned S, const unsigned lineEnd, c
         const Outcome cut = drive<ParserT>(in, S - 1, S - 1, L);
         vf_assert(!cut.ok && !cut.more, "an over-limit head is refused once limit bytes have arrived, without waiting for its end");
         vf_reach("too-large");
+    } else if (!wellFormed) {
+        // heads with obsolete folding / a whitespace-preceded line: acceptance below the limit is not claimed, only the limit is
+        vf_reach(whole.ok ? "ok" : "at-limit");
     } else if (S + slack + (http09 ? 0 : 1) <= L) {
         // sanity (and vacuity guard): a limit is a maximum size; well-formed smaller heads pass
         vf_assert(whole.ok && !whole.more && whole.consumed == S, "a well-formed head below the limit is parsed OK and consumed exactly");
@@ -128,11 +131,15 @@ extern "C" void c62_request(void)
     const int rel = relaxedSetting();
     const unsigned L = vf_range(LMIN, LMAX, "request_header_max_size");
     http1Config(rel, L, 65536);
-    const unsigned kind = (unsigned)vf_concretize(vf_range(0, 2, "kind"));
+    const unsigned kind = (unsigned)vf_concretize(vf_range(0, 4, "kind"));
     const unsigned k = stretch();
     uint8_t in[LMAX + 64];
     unsigned n = 0, lineEnd;
-    if (kind == 0) {            // long request-target, one short field
+    if (kind == 3) {            // the size comes from bytes the parser strips: an obs-fold with a long whitespace run
+        n = put(in, n, "PUT / HTTP/1.1\r\n"); lineEnd = n; n = put(in, n, "H: v\r\n"); n = rep(in, n, ' ', k + 1); n = put(in, n, "w\r\n\r\n");
+    } else if (kind == 4) {     // ... or a whitespace-preceded line right after the request line (dropped by the parser)
+        n = put(in, n, "PUT / HTTP/1.1\r\n"); lineEnd = n; n = put(in, n, " "); n = rep(in, n, 'j', k); n = put(in, n, "\r\nH: v\r\n\r\n");
+    } else if (kind == 0) {            // long request-target, one short field
         n = put(in, n, "GET /"); n = rep(in, n, 'a', k); n = put(in, n, " HTTP/1.1\r\n"); lineEnd = n; n = put(in, n, "H: v\r\n\r\n");
     } else if (kind == 1) {     // short request line, long field
         n = put(in, n, "PUT / HTTP/1.1\r\n"); lineEnd = n; n = put(in, n, "Host: "); n = rep(in, n, 'b', k); n = put(in, n, "\r\n\r\n");
@@ -140,7 +147,7 @@ extern "C" void c62_request(void)
         n = put(in, n, "GET /"); n = rep(in, n, 'a', k); n = put(in, n, "\r\n"); lineEnd = n;
     }
     nearLimit(n, L);
-    sized<Http1::RequestParser>(in, n, lineEnd, L, kind == 2, true, 0);
+    sized<Http1::RequestParser>(in, n, lineEnd, L, kind == 2, true, 0, kind < 3);
 }
 
 extern "C" void c62_reply(void)
@@ -148,11 +155,13 @@ extern "C" void c62_reply(void)
     const int rel = relaxedSetting();
     const unsigned L = vf_range(LMIN, LMAX, "reply_header_max_size");
     http1Config(rel, 65536, L);
-    const unsigned kind = (unsigned)vf_concretize(vf_range(0, 2, "kind"));
+    const unsigned kind = (unsigned)vf_concretize(vf_range(0, 3, "kind"));
     const unsigned k = stretch();
     uint8_t in[LMAX + 64];
     unsigned n = 0, lineEnd;
-    if (kind == 0) {            // long field
+    if (kind == 3) {            // the size comes from an obs-fold's whitespace run, which the parser collapses
+        n = put(in, n, "HTTP/1.1 200 OK\r\n"); lineEnd = n; n = put(in, n, "H: v\r\n"); n = rep(in, n, ' ', k + 1); n = put(in, n, "w\r\n\r\n");
+    } else if (kind == 0) {            // long field
         n = put(in, n, "HTTP/1.1 200 OK\r\n"); lineEnd = n; n = put(in, n, "H: "); n = rep(in, n, 'b', k); n = put(in, n, "\r\n\r\n");
     } else if (kind == 1) {     // long reason phrase, empty header block
         n = put(in, n, "HTTP/1.0 404 "); n = rep(in, n, 'r', k); n = put(in, n, "\r\n"); lineEnd = n; n = put(in, n, "\r\n");
@@ -160,7 +169,7 @@ extern "C" void c62_reply(void)
         n = put(in, n, "ICY 200 OK\r\n"); lineEnd = n; n = put(in, n, "H: "); n = rep(in, n, 'b', k); n = put(in, n, "\r\n\r\n");
     }
     nearLimit(n, L);
-    sized<Http1::ResponseParser>(in, n, lineEnd, L, false, false, kind == 2 ? 2 : 0);
+    sized<Http1::ResponseParser>(in, n, lineEnd, L, false, false, kind == 2 ? 2 : 0, kind < 3);
 }
 
 // ---- heads with symbolic bytes: whatever they turn the head into, "parsed OK" implies at most L bytes were consumed
